@@ -39,6 +39,7 @@ def run(ctx):
 
     it, outs = absint.inbound(repo, sink_raises=False)
     ctx.evaluations += it.steps
+    ctx.extra["e9"] = {"steps": it.steps, "events": len(it.events), "nondeterministic_conditions": sorted(it.unknown_conds)[:40]}
 
     # ---- rule 1
     for st in ("ACTIVE", "RESENDREQ_AWAITING"):
